@@ -370,7 +370,9 @@ func pathKey(p []uint64) string { return fmt.Sprint(p) }
 
 // oraclePregel returns ("", "") when the observation agrees with the superstep semantics (or the case is
 // outside the oracle's scope), else a description and a stable signature.
-func oraclePregel(c *gg.Case, o *gg.Obs) (string, string) {
+// stream: the root was called through Stream / Transform; the superstep semantics is the same, but a fan-in of
+// streams has no duplicated-key check (F-C04 of property C04), so no verdict when the value form fails that way.
+func oraclePregel(c *gg.Case, o *gg.Obs, stream bool) (string, string) {
 	if o.Class == "panic" {
 		return "the run panicked: " + o.ErrMsg, "c01:panic"
 	}
@@ -381,6 +383,13 @@ func oraclePregel(c *gg.Case, o *gg.Obs) (string, string) {
 	out, f := s.runGraph(0, nil, c.Input)
 	if s.unsup {
 		return "", ""
+	}
+	if stream && f != nil {
+		for _, cl := range f.classes {
+			if cl == clDup || cl == clType {
+				return "", ""
+			}
+		}
 	}
 	switch {
 	case f == nil:
